@@ -1,20 +1,23 @@
 """C18 - export(), summary(), cost and get_cost() are observers: they do not change the NAS model.
 
-spec -> code : ObserversMC (Impl = "ref") is explored to closure by TLC for the three kinds of model; the labelled
-               state graph is dumped and EVERY edge (abstract state x call of the alphabet {export, export(add_bn=False),
-               summary, cost, get_cost(n), cost_specification := c, forward, train(), eval()}) is executed on real PIT,
-               MPS (per-layer, per-channel) and SuperNet models along walks from freshly constructed models, with
-               full_cost on and off.  A second configuration (history in the state) makes TLC enumerate EVERY call sequence
-               up to length 3 (quick) / 5 (thorough) and check the erasure property and the specification round trip.
+spec -> code : ObserversMC (Impl = "ref") is explored to closure by TLC for the three kinds of model, in two halves of the
+               control state: "modes" (calls {export, export(add_bn=False), summary, cost, get_cost(n), cost_specification := c,
+               forward, train(), eval()}) and "options" (calls {export, summary, cost, forward, every single option call that
+               changes an option: update_softmax_options(temperature | hard | gumbel | disable_sampling = v), PIT
+               train_features / train_rf / train_dilation / discrete_cost := v}).  Both labelled state graphs are dumped and
+               EVERY edge (abstract state x call) is executed on real PIT, MPS (per-layer, per-channel) and SuperNet models
+               along walks from freshly constructed models, with full_cost on and off.  History configurations make TLC
+               enumerate EVERY call sequence up to length 3 (quick) / 5 (thorough) of either half and check the erasure
+               property and the specification round trip.
 code -> spec : after every call the harness takes an observer-neutral fingerprint of the real object (state_dict bytes by
-               class, all .training flags, requires_grad vector, outputs on a fixed batch, every cost, summary - everything
-               that executes model code runs on a faithful deep copy) and, for every non-observer call, the fingerprint of a
-               second object on which the same sequence WITHOUT the observer calls is run.  TLC (ObserversTrace) validates
-               every step: observers change nothing (incl. deep-copyability and the attribute key sets of all modules), the setter changes
-               the costs only, full run = erased run, cost and
-               export are functions of (core, specification) - which covers "switch the specification and switch it back"
-               and the models constructed directly with the other specification - with the same Observers operators.
-               Seeded random sequences (length 5..14) on further model variants go through the same trace spec.
+               class, stored sampled coefficients, all .training flags, requires_grad vector, outputs on a fixed batch, every
+               cost, summary, the options stored in every quantiser / combiner / PIT layer and the sampler in force classified
+               by behaviour, deep-copyability, public attribute key sets - everything that executes model code runs on a
+               faithful deep copy) and, for every non-observer call, the fingerprint of a second object on which the same
+               sequence WITHOUT the observer calls is run.  TLC (ObserversTrace) validates every step: observers change
+               nothing, the setter changes the costs only, full run = erased run, cost and export are functions of (core,
+               options, specification), with the same Observers operators.  Seeded random sequences (length 5..14, all calls
+               of both halves mixed, other temperatures) on further model variants go through the same trace spec.
 """
 from __future__ import annotations
 
@@ -34,35 +37,46 @@ OBS = ckobs.OBSERVER_OPS
 
 def _parse_label(lab: str) -> Dict[str, Any]:
     lab = lab.strip()
+    if lab.startswith("Upd(") and lab.endswith(")"):
+        o, v = tlc.parse_value("<<" + lab[4:-1] + ">>")
+        return {"a": "upd", "o": o, "v": int(v)}
     if not (lab.startswith("Do(") and lab.endswith(")")):
         raise MachineryError(f"edge label {lab!r}")
     return dict(tlc.parse_value(lab[3:-1]))
 
 
 def _init_of(kind: str, st: Dict[str, Any], fc: bool) -> Dict[str, Any]:
-    return {"train": bool(st["core"]["wt"]), "hard": bool(st["par"]["hard"]), "cs": st["cs"], "fc": fc}
+    opt = st["core"]["opt"]
+    return {"train": bool(st["core"]["wt"]), "hard": bool(opt["hard"]), "gumbel": bool(opt["gumbel"]), "cs": st["cs"], "fc": fc}
+
+
+OPTS = {"pit": ["tf", "trf", "td", "dc"], "mps": ["temp", "hard", "gumbel", "disable"], "sn": ["temp", "hard"]}
 
 
 def _random_scenario(kind: str, variant: str, rng: random.Random, length: int) -> Dict[str, Any]:
     init = {"train": rng.random() < 0.7, "hard": kind != "pit" and rng.random() < 0.3,
+            "gumbel": kind == "sn" and rng.random() < 0.3,
             "cs": rng.choice(["A", "A", "D", "B"]), "fc": rng.random() < 0.5}
     cs = init["cs"]
     acts: List[Dict[str, Any]] = []
     for _ in range(length):
         u = rng.random()
-        if u < 0.22:
+        if u < 0.20:
             acts.append({"a": "export", "nobn": kind == "pit" and rng.random() < 0.3})
-        elif u < 0.36:
+        elif u < 0.32:
             acts.append({"a": "summary"})
-        elif u < 0.56:
+        elif u < 0.48:
             acts.append({"a": "cost"} if cs != "D" else {"a": "getcost", "n": rng.choice(["a", "b"])})
-        elif u < 0.70:
+        elif u < 0.58:
             cs = rng.choice([c for c in ("A", "B", "D") if c != cs])
             acts.append({"a": "setcs", "c": cs})
-        elif u < 0.88:
+        elif u < 0.72:
             acts.append({"a": "forward"})
-        else:
+        elif u < 0.80:
             acts.append({"a": "mode", "v": rng.random() < 0.5})
+        else:
+            o = rng.choice(OPTS[kind])
+            acts.append({"a": "upd", "o": o, "v": rng.choice([250, 500, 1000, 2000, 4000]) if o == "temp" else rng.randint(0, 1)})
     return {"kind": kind, "variant": variant, "init": init, "wseed": rng.randint(0, 999), "acts": acts, "src": "random"}
 
 
@@ -114,15 +128,23 @@ def _key(sc):
 
 def run(tier: str, seed: int, replay=None) -> int:
     R = Run("C18", tier, seed, level="model_checking")
-    R.rule = ("scenario = (kind of model, model variant, constructor arguments {initial mode, hard_softmax, cost specification, "
-              "full_cost}, sequence of calls over {export(), export(add_bn=False), summary(), cost, get_cost(name), "
-              "cost_specification := A|B|{a:A,b:B}, forward, train(), eval()}).  The sequences are walks from initial states "
-              "that cover EVERY edge of the state graph TLC computes to closure for ObserversMC (per kind), executed on real "
-              "models (thorough: each variant x full_cost on/off gets a complete edge cover; quick: full_cost alternates over the variants); plus seeded random sequences on further "
+    R.rule = ("scenario = (kind of model, model variant, constructor arguments {initial mode, hard_softmax, Gumbel sampler "
+              "(SuperNet), cost specification, full_cost}, sequence of calls over {export(), export(add_bn=False), summary(), cost, "
+              "get_cost(name), cost_specification := A|B|{a:A,b:B}, forward, train(), eval(), update_softmax_options(one option), "
+              "PIT train_features / train_rf / train_dilation / discrete_cost := v}).  The sequences are walks from initial states "
+              "that cover EVERY edge of the two state graphs (modes half, options half) TLC computes to closure for ObserversMC "
+              "per kind, executed on real models (thorough: each variant x full_cost on/off gets a complete edge cover of both "
+              "halves; quick: full_cost alternates over the variants); plus seeded random sequences mixing all calls on further "
               "variants.  Every scenario is executed twice (with and without its observer calls).  Non-trivial = the sequence "
               "contains an observer call that is followed by a later call.")
     R.assumptions = [
-        "deterministic samplers only (softmax / hard softmax; no Gumbel noise), CPU, one thread, float32",
+        "CPU, one thread, float32; Gumbel sampling included: the full run and the erased run each own a random stream that is "
+        "saved / restored around every call and observation, so both see the same noise",
+        "the two halves of the control state (modes / BatchNorm counter / cost specification; option record / sampler) are "
+        "explored separately at design level (they are independent in the model); the random sequences mix them",
+        "'the sampler in force' is classified by behaviour on a copy (theta_alpha untouched = none, depends on the random stream "
+        "= gumbel, else softmax), for every quantiser / combiner with more than one alternative; stored options (temperature, "
+        "hard, gumbel, disable_sampling; PIT getters and per-layer flags) are read from the live object",
         "the random stream is NOT among the compared components: export() of PIT/MPS initialises the re-created layers with "
         "the global RNG; the harness restores the RNG state after every observer call and records the fact (evidence: "
         "observer_calls_that_advanced_rng)",
@@ -156,38 +178,46 @@ def run(tier: str, seed: int, replay=None) -> int:
     scen: List[Dict[str, Any]] = []
     graph_info = {}
     edges_total = 0
+    need = {"modes": {"export", "summary", "cost", "getcost", "setcs", "forward", "mode"},
+            "options": {"export", "summary", "cost", "forward", "upd"}}
     for kind in ("pit", "mps", "sn"):
-        # 1. design level: closure + every sequence up to MaxLen
-        dot = tempfile.mktemp(prefix=f"c18-{kind}-", suffix=".dot", dir=tlc.scratch())
-        res = R.design("ObserversMC", f"ObserversMC_{kind}_{sfx}", dump_dot=dot, coverage=True,
-                       require_cov=["ObserversMC!Do"], workers=4)
-        R.design("ObserversMC", f"ObserversMC_{kind}_seq_{sfx}", workers=4 if quick else 8)
-        nodes, edges, init = tlc.parse_dot(dot)
-        if len(nodes) != res.distinct or not init:
-            raise MachineryError(f"dump of {kind}: {len(nodes)} states, TLC reported {res.distinct}")
-        cid = {n: canon(st) for n, st in nodes.items()}
-        nodes = {cid[n]: st for n, st in nodes.items()}
-        edges = sorted((cid[s], cid[d], lab) for s, d, lab in edges)
-        init = sorted(cid[n] for n in init)
-        calls = [_parse_label(lab) for _, _, lab in edges]
-        kinds_seen = {c["a"] for c in calls}
-        need = {"export", "summary", "cost", "getcost", "setcs", "forward", "mode"}
-        if not need <= kinds_seen:
-            raise MachineryError(f"vacuity guard: calls {need - kinds_seen} never taken in ObserversMC/{kind}")
-        graph_info[kind] = {"states": len(nodes), "edges": len(edges), "initial": len(init)}
-        # 2. spec -> code: a complete edge cover per (variant, full_cost)
-        for vi, variant in enumerate(variants[kind]):
-            # quick: full_cost alternates over the variants (SuperNet, one variant: both); thorough: both for every variant
-            for fc in ((False, True) if (not quick or len(variants[kind]) == 1) else (bool(vi % 2),)):
-                walks = _covering_walks(nodes, edges, init, maxlen, random.Random(seed * 7919 + len(scen)))
-                covered = set()
-                for start, walk in walks:
-                    covered.update(walk)
-                    scen.append({"kind": kind, "variant": variant, "init": _init_of(kind, nodes[start], fc),
-                                 "wseed": seed, "acts": [calls[k] for k in walk], "src": "graph"})
-                if len(covered) != len(edges):
-                    raise MachineryError(f"{kind}/{variant}: walks cover {len(covered)} of {len(edges)} edges")
-                edges_total += len(edges)
+        for half, tag in (("modes", ""), ("options", "opt")):
+            # 1. design level: closure + every sequence up to MaxLen, for both halves of the control state
+            dot = tempfile.mktemp(prefix=f"c18-{kind}-{half}-", suffix=".dot", dir=tlc.scratch())
+            res = R.design("ObserversMC", f"ObserversMC_{kind}_{tag + '_' if tag else ''}{sfx}", dump_dot=dot, workers=4)
+            R.design("ObserversMC", f"ObserversMC_{kind}_{tag}seq_{sfx}", workers=4 if quick else 8)
+            nodes, edges, init = tlc.parse_dot(dot)
+            if len(nodes) != res.distinct or not init:
+                raise MachineryError(f"dump of {kind}/{half}: {len(nodes)} states, TLC reported {res.distinct}")
+            cid = {n: canon(st) for n, st in nodes.items()}
+            nodes = {cid[n]: st for n, st in nodes.items()}
+            edges = sorted((cid[s], cid[d], lab) for s, d, lab in edges)
+            init = sorted(cid[n] for n in init)
+            calls = [_parse_label(lab) for _, _, lab in edges]
+            kinds_seen = {c["a"] for c in calls}
+            if not need[half] <= kinds_seen:
+                raise MachineryError(f"vacuity guard: calls {need[half] - kinds_seen} never taken in ObserversMC/{kind}/{half}")
+            if half == "options" and {c["o"] for c in calls if c["a"] == "upd"} != set(OPTS[kind]):
+                raise MachineryError(f"vacuity guard: not every option of {kind} is changed in ObserversMC/{kind}/options")
+            graph_info[f"{kind}/{half}"] = {"states": len(nodes), "edges": len(edges), "initial": len(init)}
+            # 2. spec -> code: complete edge covers.  thorough: one per (variant, full_cost); quick: full_cost alternates
+            #    over the variants (modes half; SuperNet, one variant: both) / one cover per variant, full_cost alternating
+            #    (options half)
+            for vi, variant in enumerate(variants[kind]):
+                if not quick or (half == "modes" and len(variants[kind]) == 1):
+                    fcs = (False, True)
+                else:
+                    fcs = (bool(vi % 2),)
+                for fc in fcs:
+                    walks = _covering_walks(nodes, edges, init, maxlen, random.Random(seed * 7919 + len(scen)))
+                    covered = set()
+                    for start, walk in walks:
+                        covered.update(walk)
+                        scen.append({"kind": kind, "variant": variant, "init": _init_of(kind, nodes[start], fc),
+                                     "wseed": seed, "acts": [calls[k] for k in walk], "src": "graph", "half": half})
+                    if len(covered) != len(edges):
+                        raise MachineryError(f"{kind}/{variant}/{half}: walks cover {len(covered)} of {len(edges)} edges")
+                    edges_total += len(edges)
     # sanity (non-vacuity): the literal model of the pinned export violates the invariants / action properties,
     # and with the candidate repair of F16 the MPS model still re-samples its coefficients (F35)
     R.design("ObserversMC", "ObserversMC_pit_pinned", expect_ok=False, workers=2)
@@ -197,6 +227,9 @@ def run(tier: str, seed: int, replay=None) -> int:
     # ... and a cost computation that updates the live vars(module) adds attributes (F36 / F37): not neutral, not erasable
     R.design("ObserversMC", "ObserversMC_mps_costkeys", expect_ok=False, workers=2)
     R.design("ObserversMC", "ObserversMC_sn_costkeys_seq", expect_ok=False, workers=2)
+    # ... and an export() that switches sampling back ON instead of back to what it was changes the options
+    R.design("ObserversMC", "ObserversMC_mps_optreset", expect_ok=False, workers=2)
+    R.design("ObserversMC", "ObserversMC_mps_optreset_seq", expect_ok=False, workers=2)
 
     # 3. code -> spec: random sequences on all variants
     n_rand = 10 if quick else 150
